@@ -1,5 +1,8 @@
 import RbV.Spec.RankSelect
 import RbV.Lemmas.RankSelect
+import RbV.Lemmas.RankSelectModel
+import RbV.Lemmas.Wavelet
+import RbV.Lemmas.Bytes8
 /-!
 # C17 — rank/select and wavelet-matrix queries equal naive counting
 
@@ -105,6 +108,91 @@ theorem tableOk_sound (t : List Nat) (h : tableOk t = true) :
   rcases h.2 a ha b hb with h' | h'
   · exact h'
   · exact absurd hab h'
+
+/-! ## Mirror models of the Rust algorithms (`RbV/Model/RankSelect.lean`, `RbV/Model/Wavelet.lean`) -/
+section models
+open RbV.Model.RankSelect
+
+/-- the driver reads blocks from the array `chunks bits`; that is `get_block` at every index -/
+theorem chunks_getD (bits : List Bool) (b : Nat) : (chunks bits).getD b [] = getBlock bits b := by
+  unfold chunks
+  rw [List.getD_eq_getElem?_getD, List.getElem?_map]
+  by_cases hb : b < (bits.length + 7) / 8
+  · simp [List.getElem?_range hb]
+  · have : (List.range ((bits.length + 7) / 8))[b]? = none := by
+      rw [List.getElem?_eq_none_iff]; simp; omega
+    simp only [this, Option.map_none, Option.getD_none]
+    unfold getBlock
+    rw [List.drop_eq_nil_of_le (by omega)]; rfl
+
+/-- the model's blocks are lists of at most 8 bits; these are exactly the `u8` operations of the code on the byte
+`get_block` returns: `count_ones`, `count_zeros` (padding counted), `(b & ((2u16 << j) - 1) as u8).count_ones()`
+and the bit test `b & (1 << i) != 0` -/
+theorem block_ops_are_byte_ops (blk : List Bool) (h : blk.length ≤ 8) :
+    RbV.Lemmas.Bytes8.popcount8 (RbV.Lemmas.Bytes8.byteOf blk) = countOnes blk ∧
+    8 - RbV.Lemmas.Bytes8.popcount8 (RbV.Lemmas.Bytes8.byteOf blk) = countZeros blk ∧
+    (∀ j, j < 8 → RbV.Lemmas.Bytes8.popcount8 (RbV.Lemmas.Bytes8.byteOf blk &&& RbV.Lemmas.Bytes8.rankMask j)
+      = countOnes (blk.take (j + 1))) ∧
+    (∀ i, i < 8 → ((RbV.Lemmas.Bytes8.byteOf blk &&& (1 <<< i)) != 0) = blk.getD i false) :=
+  ⟨RbV.Lemmas.Bytes8.popcount8_byteOf blk h, RbV.Lemmas.Bytes8.countZeros_byteOf blk h,
+   fun j hj => RbV.Lemmas.Bytes8.popcount8_masked blk j h hj, fun i hi => RbV.Lemmas.Bytes8.bit_test blk i hi⟩
+
+/-- [A] `superblocks`: entry `m` is the number of `t`-bits before bit `m·32k` (for the 0-table the zero padding of
+the last byte never enters an entry) -/
+theorem superblocks_correct (t : Bool) (bits : List Bool) (k : Nat) (hk : 1 ≤ k) (m : Nat)
+    (hm : m * (k * 32) < bits.length) :
+    ((superblocks t bits.length (k * 32) (getBlock bits)).getD m (.first 0)).val
+      = (bits.take (m * (k * 32))).count t :=
+  RbV.Lemmas.RankSelectModel.superblocks_val t bits k hk m hm
+
+/-- [A] `rank_correct`: the model of `rank_1` (superblock + whole bytes + masked byte) equals the reference for every
+bit vector, every superblock factor `k ≥ 1` and every `i` (`None` exactly for `i ≥ n`) -/
+theorem rank_correct (bits : List Bool) (k : Nat) (hk : 1 ≤ k) (i : Nat) :
+    rank1 bits.length (k * 32) (getBlock bits) (superblocks true bits.length (k * 32) (getBlock bits)) i
+      = rankRef true bits i ∧
+    rank0 bits.length (k * 32) (getBlock bits) (superblocks true bits.length (k * 32) (getBlock bits)) i
+      = rankRef false bits i :=
+  ⟨RbV.Lemmas.RankSelectModel.rank1_correct bits k hk i, RbV.Lemmas.RankSelectModel.rank0_correct bits k hk i⟩
+
+/-- [B] `select_correct`: the model of `select_x` (search over the superblocks, byte scan, bit scan that ignores the
+padding) equals the reference for both polarities, every non-empty bit vector, every `k ≥ 1`, every `j` -/
+theorem select_correct (b : Bool) (bits : List Bool) (k : Nat) (hk : 1 ≤ k) (hn : bits ≠ []) (j : Nat) :
+    selectX bits.length (k * 32) (getBlock bits) (superblocks b bits.length (k * 32) (getBlock bits)) b j
+      = selectRef b bits j :=
+  RbV.Lemmas.RankSelectModel.select_correct b bits k hk hn j
+
+/-- [B] rank and select of the *model* are mutually inverse -/
+theorem model_rank_select_inverse (bits : List Bool) (k : Nat) (hk : 1 ≤ k) (hn : bits ≠ []) (j p : Nat)
+    (h : selectX bits.length (k * 32) (getBlock bits) (superblocks true bits.length (k * 32) (getBlock bits)) true j
+      = some p) :
+    rank1 bits.length (k * 32) (getBlock bits) (superblocks true bits.length (k * 32) (getBlock bits)) p = some j := by
+  rw [select_correct true bits k hk hn j] at h
+  rw [(rank_correct bits k hk p).1]
+  exact rank_select_inverse true bits j p h
+
+/-- [C] wavelet matrix: for any code table that passes the driver's check (`tableOk`: codes of A,C,G,T,N,$ below 8 and
+pairwise distinct — `dna2int_literal_ok` for the pinned table), any text over these six symbols, any such symbol `c`
+and any `p < |text|`, the three-level model returns the number of occurrences of `c` in `text[0..=p]` -/
+theorem wavelet_rank_correct (t : List Nat) (ht : tableOk t = true) (text : List Nat) (c p : Nat)
+    (hp : p < text.length) (hc : c ∈ dnaSyms) (htext : ∀ x ∈ text, x ∈ dnaSyms) :
+    RbV.Model.Wavelet.rank (fun v => t.getD v 0)
+        (RbV.Model.Wavelet.rkSpec (RbV.Model.Wavelet.build (fun v => t.getD v 0) text))
+        (RbV.Model.Wavelet.build (fun v => t.getD v 0) text) c p
+      = occ text c p := by
+  obtain ⟨_, hlt, hinj⟩ := tableOk_sound t ht
+  exact RbV.Lemmas.Wavelet.rank_eq_occ _ text c p hp (hlt c hc) (fun x hx => hlt x (htext x hx))
+    (fun x hx hxc => hinj x (htext x hx) c hc hxc)
+
+-- non-vacuity: a 40-bit vector (two superblocks for k = 1, a one at bit 33, a zero run in front)
+def exBits : List Bool := List.replicate 33 false ++ [true, false, true, true, false, false, true]
+example : rank1 40 32 (getBlock exBits) (superblocks true 40 32 (getBlock exBits)) 36 = some 3 := by decide
+example : selectX 40 32 (getBlock exBits) (superblocks true 40 32 (getBlock exBits)) true 4 = some 39 := by decide
+example : selectX 40 32 (getBlock exBits) (superblocks false 40 32 (getBlock exBits)) false 37 = none := by decide
+example : RbV.Model.Wavelet.rank (fun v => dna2intLit.getD v 0)
+    (RbV.Model.Wavelet.rkSpec (RbV.Model.Wavelet.build (fun v => dna2intLit.getD v 0) [65, 67, 78, 36, 78, 65]))
+    (RbV.Model.Wavelet.build (fun v => dna2intLit.getD v 0) [65, 67, 78, 36, 78, 65]) 78 4 = 2 := by decide
+
+end models
 
 example : selectRef true [false, true, true, false, true] 3 = some 4 := by decide
 example : rankRef false [false, true, true, false, true] 3 = some 2 := by decide
